@@ -506,7 +506,16 @@ func (h5) Gen(prop, tier string, r *simrt.Rng) (any, simrt.Config) {
 		Strategy: simrt.Pick(r, "sticky", "rr", "rw"), SwitchProb: 0.01, MaxSimNs: c.StartOffsetNs + c.RunNs + int64(time.Hour), MaxSteps: 3000000,
 		RandExtreme: simrt.Pick(r, 0.0, 0.1, 0.4),
 	}
-	if (prop == "C09" || prop == "C02") && !c.Direct && c.PureTicks == 0 && r.Intn(4) == 0 {
+	if prop == "C11" && c.Kind == "gaussian" && r.Intn(4) == 0 {
+		// the ticking loop is held up for several ticks now and then (ticks are lost): no burst afterwards
+		tick := h5Interval(c)
+		for i, n := 0, 5+r.Intn(20); i < n; i++ {
+			c.EvalSleepNs = append(c.EvalSleepNs, 0)
+		}
+		for i, n := 0, 1+r.Intn(3); i < n; i++ {
+			c.EvalSleepNs[r.Intn(len(c.EvalSleepNs))] = tick*int64(simrt.Pick(r, 23, 53, 31))/10 + 177
+		}
+	} else if (prop == "C09" || prop == "C02") && !c.Direct && c.PureTicks == 0 && r.Intn(4) == 0 {
 		// slow evaluations instead of stall faults: ticks become overdue while one is being handled
 		tick := h5Interval(c)
 		for i, n := 0, 3+r.Intn(5); i < n; i++ {
@@ -899,7 +908,26 @@ func h5Gauss(env *Env, c *H5Cfg, sh *h5Shared) {
 	for _, ws := range order {
 		w := wins[ws]
 		if int64(len(w.calls)) != steps {
-			continue // incomplete window (run started or ended inside it, or ticks were lost)
+			// incomplete window (run started or ended inside it, or ticks were lost while the loop was held up): the
+			// volume clause needs every tick, the peak clause does not - no tick asks for more than one above the
+			// tick nearest the peak, if that one was evaluated
+			pk := -1
+			for i, q := range w.calls {
+				if math.Abs(float64(q.ArgNs-ws)-mu) <= float64(f)/2 {
+					pk = i
+				}
+			}
+			if pk >= 0 {
+				for _, q := range w.calls {
+					if q.V > w.calls[pk].V+1 {
+						env.Violate("C11", "peak-not-maximal", "gaussian/peak/incomplete-window", "window at +%s (%d of %d ticks evaluated): a tick at +%s requested %d, the tick nearest the peak requested %d (%s)",
+							dur(ws), len(w.calls), steps, dur(q.ArgNs-ws), q.V, w.calls[pk].V, (h5{}).Describe(c))
+						return
+					}
+				}
+				env.Hit("h5.gauss_incomplete_window_peak_checked")
+			}
+			continue
 		}
 		if w.calls[0].ArgNs-ws >= f || ws+rep-w.calls[len(w.calls)-1].ArgNs > f {
 			continue
